@@ -578,13 +578,14 @@ def c19_open(run, quick):
 # --------------------------------------------------------------------------
 # C21  Failover
 FO = os.path.join(vlib.SPEC, "Failover")
-FO_BUGS = [("Bug_DedupLT.cfg", "Inv"), ("Bug_NoReplay.cfg", "Inv"), ("Bug_PopBeyondSync.cfg", "Inv")]
+FO_BUGS = [("Bug_DedupLT.cfg", "Inv"), ("Bug_NoReplay.cfg", "Inv"), ("Bug_PopBeyondSync.cfg", "Inv"),
+           ("Bug_GrowCopyUnwrapped.cfg", "Inv"), ("Bug_ReclaimAfterPut.cfg", "Inv")]
 
 
-def fo_schedules(run, walks, seed, syncset, n=6, w=4):
+def fo_schedules(run, walks, seed, syncset, n=6, w=4, qcap=2):
     cfg = open(os.path.join(FO, "FailoverGen.cfg")).read()
     cfg = cfg.replace("SyncSet = {2, 3, 5, 6}", "SyncSet = {%s}" % ", ".join(map(str, syncset)))
-    cfg = cfg.replace("N = 6", "N = %d" % n).replace("W = 4", "W = %d" % w)
+    cfg = cfg.replace("N = 6", "N = %d" % n).replace("W = 4", "W = %d" % w).replace("QCap = 2", "QCap = %d" % qcap)
     r = vlib.tlc(FO, "FailoverGen", "FailoverGenRun.cfg", workers=1, timeout=900, simulate="num=%d" % walks, depth=300, seed=seed,
                  deadlock_check=False, extra_files={"FailoverGenRun.cfg": cfg.encode()}, heap="2g")
     if r.timed_out or r.violation:
@@ -606,10 +607,34 @@ def fo_schedules(run, walks, seed, syncset, n=6, w=4):
     return out, r
 
 
+def fo_grow(st):
+    """(ring growths, growths with a non-zero tail = wrapped entries, of those: followed by a switch replay or a sync)"""
+    g = [i for i, x in enumerate(st) if x[0] == "GROW"]
+    gt = [i for i in g if x_tail(st[i]) > 0]
+    used = [i for i in gt if any(x[0] in ("DS", "SY", "CLW") for x in st[i + 1:])]
+    return len(g), len(gt), len(used)
+
+
+def x_tail(x):
+    return int(x[1]) if len(x) > 1 else 0
+
+
 def fo_interest(st):
     ops = [x[0] for x in st]
+    g, gt, used = fo_grow(st)
     return (2 * ops.count("SY") + ops.count("FL") + ops.count("DS") + 2 * min(ops.count("W"), 6) + 2 * ("FAIL" in ops)
-            + 3 * (ops.count("DS") >= 2 and "SY" in ops) + 5 * ("STOP" in ops))
+            + 3 * (ops.count("DS") >= 2 and "SY" in ops) + 5 * ("STOP" in ops) + 2 * min(g, 2) + 4 * min(gt, 1) + 4 * min(used, 1))
+
+
+def fo_scaled_score(st):
+    """schedules worth running with thousands of real records: the ring grows while wrapped and the wrapped entries are
+    then replayed by a switch (after which something is synced) or popped"""
+    sc = 0
+    for i, x in enumerate(st):
+        if x[0] == "GROW" and x_tail(x) > 0:
+            rest = [y[0] for y in st[i + 1:]]
+            sc = max(sc, 1 + 4 * ("DS" in rest) + 2 * ("DS" in rest and "SY" in rest[rest.index("DS"):]) + ("CRASH" in rest) + ("CLW" in rest))
+    return sc
 
 
 def run_c21(run):
@@ -619,7 +644,18 @@ def run_c21(run):
     cfgs = ["Failover.cfg"] if quick else ["Failover.cfg", "FailoverW3.cfg", "FailoverThorough.cfg"]
     for c in cfgs:
         jobs.append((c, (lambda c=c: vlib.tlc_must_pass(FO, "Failover", c, workers=max(2, W // 2), timeout=2400, heap="8g", coverage=(c == "Failover.cfg")))))
-    res = parallel_tlc(jobs, nproc=3)
+    # TLC-generated schedules (simulation of FailoverGen), run alongside the design checks
+    allsets = [[2, 3, 5, 6], [1, 4, 6], [2, 6], [1, 2, 3, 4, 5, 6]]   # each lets the ring (QCap below) grow while wrapped within N = 6
+    qcaps = [2, 4, 2, 3]        # ring capacity of the generating model, per sync set (quick: 2)
+    gens = [(k, ss, 2 if quick else qcaps[k]) for k, ss in enumerate(allsets) if not quick or k == run.seed % len(allsets)]
+    if quick:
+        # a second simulation whose sync set leaves room for the ring to grow while wrapped; only such schedules are taken from it
+        gens.append((9, [1, 4, 6], 2))
+    for k, ss, qc in gens:
+        jobs.append(("gen%d" % k, (lambda k=k, ss=ss, qc=qc: fo_schedules(run, 2500 if quick else 12000, run.seed * 10 + k, ss, qcap=qc))))
+    t00 = _time.time()
+    res = parallel_tlc(jobs, nproc=6 if quick else 4)
+    _t("design configs, seeded bugs and schedule generation done", t00)
     for c, e in FO_BUGS:
         run.design["Failover/" + c] = dict(caught=res[c].violation, generated=res[c].generated, wall_s=round(res[c].wall, 1))
     for c in cfgs:
@@ -627,27 +663,43 @@ def run_c21(run):
         nt = run.design["Failover/" + c].get("never_taken")
         if nt:
             raise vlib.Inconclusive("Failover/%s: actions never taken (vacuous): %s" % (c, nt))
-    # TLC-generated schedules
     scheds = []
     gen_stats = []
-    allsets = [[2, 3, 5, 6], [1, 4, 6], [3, 6], [1, 2, 3, 4, 5, 6]]
-    for k, syncset in enumerate(allsets if not quick else [allsets[run.seed % len(allsets)]]):
-        sts, r = fo_schedules(run, 2500 if quick else 12000, run.seed * 10 + k, syncset)
+    scaled = []
+    for k, syncset, qcap in gens:
+        sts, r = res["gen%d" % k]
         sts.sort(key=fo_interest, reverse=True)
         keep = sts[:170 if quick else 1500]
         rest = sts[len(keep):]
         rng.shuffle(rest)
         keep += rest[:50 if quick else 500]
-        scheds += [(syncset, st) for st in keep]
-        gen_stats.append(dict(syncset=syncset, behaviours=len(sts), kept=len(keep), wall_s=round(r.wall, 1)))
+        if k == 9:
+            keep = []
+        # schedules in which the model's ring grows while wrapped and the re-slotted entries are then replayed / popped
+        wrapped = [st for st in sts if fo_grow(st)[2] and st not in keep]
+        keep += wrapped[:30 if quick else 300]
+        # mode: the ring of the real queue is QCap slots ("small"), or untouched with one real record per model record ("real")
+        scheds += [(syncset, st, qcap, "small" if j % 2 == 0 or fo_grow(st)[1] else "real") for j, st in enumerate(keep)]
+        # "scaled": the real 8192-slot ring, 8192/QCap real records per model record
+        if 8192 % qcap == 0 and (not quick or k == 9):
+            big = sorted([st for st in sts if fo_scaled_score(st) > 0], key=fo_scaled_score, reverse=True)
+            top = big[:2 if quick else 20]
+            more = big[len(top):]
+            rng.shuffle(more)
+            scaled += [(syncset, st, qcap, "scaled") for st in top + more[:1 if quick else 10]]
+        gen_stats.append(dict(syncset=syncset, qcap=qcap, behaviours=len(sts), kept=len(keep), wall_s=round(r.wall, 1),
+                              with_growth=sum(1 for st in sts if fo_grow(st)[0]), with_growth_while_wrapped=sum(1 for st in sts if fo_grow(st)[1])))
+    scheds += scaled
     run.design["FailoverGen/simulate(N=6,W=4)"] = gen_stats
+    if not scaled or not any(fo_grow(st)[2] for _, st, _, m in scheds if m == "small"):
+        raise vlib.Inconclusive("FailoverGen: no generated schedule grows the ring while it is wrapped and then replays/pops it (vacuous)")
     cases = []
-    for i, (syncset, st) in enumerate(scheds):
+    for i, (syncset, st, qcap, mode) in enumerate(scheds):
         n = 6
         sizes = [rng.choice([20, 200, 3000, 5000, 9000, 33000, 40000]) if rng.random() < .6 else rng.randint(1, 12000) for _ in range(n)]
         logdata = [j for j in range(1, n + 1) if rng.random() < .08]
         cases.append(dict(id=i, n=n, sync=syncset, sizes=sizes, logdata=logdata, steps=st, crashpct=rng.choice([0, 0, 50, 50, 100]),
-                          walsync=rng.random() < .5, src="tlc"))
+                          walsync=rng.random() < .5, src="tlc", qcap=qcap, mode=mode))
     binp = vlib.build_driver("wal", name="wal_wal" + SFX)
     tdir = vlib.scratch("verif.c21.")
     cf = os.path.join(tdir, "cases.jsonl")
@@ -675,36 +727,58 @@ def run_c21(run):
     def describe(lines, off):
         w = [json.loads(l) for l in lines if '"op":"fwrote"' in l]
         rel = [json.loads(l)["seq"] for l in lines[:off] if '"op":"freleased"' in l and '"err":false' in l]
-        return "written seqs %s (count>0: %s), released-ok before the read %s, read: %s" % (
-            [x["seq"] for x in w], [x["seq"] for x in w if x["count"] > 0], rel, lines[off][:300])
-    acc, events, rej = validate_runs(run, FO, "FailoverTrace", "FailoverTrace.cfg", good, {"fread", "fpanic"}, "C21", keep_name="c21", describe=describe, heap="3g")
+        grow = [l for l in lines if '"op":"fgrow"' in l]
+        ws = lambda x: str(x["seq"]) if x["n"] == 1 else "%d..+%dx%d" % (x["seq"], x["count"], x["n"])
+        rd = lines[off]
+        if len(rd) > 400:
+            rd = rd[:250] + " ... " + rd[-150:]
+        return "%s; written seqs [%s] (count>0: [%s]), ring growths %s, released-ok before the read %s, event: %s" % (
+            lines[0][:200], ", ".join(ws(x) for x in w)[:600], ", ".join(ws(x) for x in w if x["count"] > 0)[:600], grow[:4], rel[:40], rd)
+    acc, events, rej = validate_runs(run, FO, "FailoverTrace", "FailoverTrace.cfg", good, {"fread", "fpanic", "fwaiters"}, "C21", keep_name="c21", describe=describe, heap="3g")
     _t("TLC validated", t0)
     run.traces += acc
     if rej == 0:
         demo = None
         for r in good:
+            if '"block":1}' not in r[0]:
+                continue
             evs = [json.loads(l) for l in r]
             rd = [i for i, e in enumerate(evs) if e["op"] == "fread"]
-            if rd and len(evs[rd[0]]["seqs"]) >= 3 and any(e["op"] == "freleased" and not e["err"] for e in evs[:rd[0]]):
+            if (rd and len(evs[rd[0]]["seqs"]) >= 3 and any(e["op"] == "freleased" and not e["err"] for e in evs[:rd[0]])
+                    and any(e["op"] == "fwaiters" for e in evs)):
                 demo = (r, evs, rd[0])
                 break
         if demo is None:
             raise vlib.Inconclusive("binding demo: no run with >= 3 records read and a clean release")
         r, evs, ri = demo
         e1 = dict(evs[ri]); q = list(e1["seqs"]); q[1], q[2] = q[2], q[1]; e1["seqs"] = q
-        must_reject(FO, "FailoverTrace", "FailoverTrace.cfg", r[:ri] + [json.dumps(e1)] + r[ri + 1:], "a read with two records swapped", at=ri)
         e2 = dict(evs[ri]); e2["seqs"] = [e2["seqs"][0]] + list(e2["seqs"])
-        must_reject(FO, "FailoverTrace", "FailoverTrace.cfg", r[:ri] + [json.dumps(e2)] + r[ri + 1:], "a read with a duplicated record", at=ri)
         wi = [i for i, e in enumerate(evs) if e["op"] == "fwrote" and e["count"] > 0 and e["seq"] == evs[ri]["seqs"][-1]][0]
-        must_reject(FO, "FailoverTrace", "FailoverTrace.cfg", r[:wi] + r[wi + 1:], "a run with the fwrote event of a returned record dropped")
+        qi = [i for i, e in enumerate(evs) if e["op"] == "fwaiters"][0]
+        mr = lambda lines, what, at=None: (lambda: must_reject(FO, "FailoverTrace", "FailoverTrace.cfg", lines, what, at=at))
+        parallel_tlc([("a", mr(r[:ri] + [json.dumps(e1)] + r[ri + 1:], "a read with two records swapped", ri)),
+                      ("b", mr(r[:ri] + [json.dumps(e2)] + r[ri + 1:], "a read with a duplicated record", ri)),
+                      ("c", mr(r[:wi] + r[wi + 1:], "a run with the fwrote event of a returned record dropped")),
+                      ("d", mr(r[:qi] + ['{"op":"fwaiters","pending":1}'] + r[qi + 1:], "a run with one sync waiter left parked after Close", qi))],
+                     nproc=4)
+        _t("binding demo done", t0)
         run.cov["binding_demo"] = ("an accepted real run was re-validated with (a) two read records swapped, (b) a record duplicated, (c) the "
-                                   "write event of a returned record dropped: TLC rejected all three")
+                                   "write event of a returned record dropped, (d) one sync waiter still parked after Close: TLC rejected all four")
     # coverage
     dup_tail = crash = multi = 0
     readlens = {}
     nontriv = set()
+    modes, grows, grows_wrapped, maxrecs = {}, {}, {}, 0
     for r in good:
         evs = [json.loads(l) for l in r]
+        mode = evs[0].get("mode", "real")
+        modes[mode] = modes.get(mode, 0) + 1
+        gr = [e for e in evs if e["op"] == "fgrow"]
+        if gr:
+            grows[mode] = grows.get(mode, 0) + 1
+        if any(e["tail"] % e["cap"] != 0 for e in gr):      # copy(new, old) would differ from re-slotting i%n -> i%m
+            grows_wrapped[mode] = grows_wrapped.get(mode, 0) + 1
+        maxrecs = max(maxrecs, sum(e["n"] for e in evs if e["op"] == "fwrote"))
         sw = sum(1 for e in evs if e["op"] == "fswitch")
         rds = [e for e in evs if e["op"] == "fread"]
         if not rds:
@@ -731,11 +805,21 @@ def run_c21(run):
     run.cov["records_read_histogram"] = {str(k): v for k, v in sorted(readlens.items())}
     run.cov["multi_segment_runs"] = multi
     run.cov["schedules"] = len(cases)
+    run.cov["runs_by_ring_mode"] = modes
+    run.cov["runs_where_the_real_ring_grew"] = grows
+    run.cov["runs_where_the_real_ring_grew_while_wrapped"] = grows_wrapped
+    run.cov["most_records_in_one_run"] = maxrecs
+    if not grows_wrapped.get("small") or not grows_wrapped.get("scaled"):
+        raise vlib.Inconclusive("C21: the real recordQueue never grew while wrapped (small: %s, scaled: %s runs): ring growth not exercised"
+                                % (grows_wrapped.get("small", 0), grows_wrapped.get("scaled", 0)))
     run.cov["driver_problems"] = problems
     for r in good[:2]:
         run.sample({"events": [json.loads(l) for l in r[:14]]})
     run.assumptions += [
         "Failover.tla abstracts each record.LogWriter to (queued, written, synced) prefixes; its own flush loop is C20's subject",
+        "recordQueue ring: the model's capacity is QCap (1..4) and doubles; the real ring is exercised (a) with its buffer replaced by a "
+        "QCap-slot one before the first push (in-package; the code only uses len(q.buffer)) and (b) untouched (initialBufferLen = 8192) "
+        "with 8192/QCap tiny records per model record, so both fill, wrap and double where the model's ring does",
         "schedules are TLC behaviours of Failover.tla; a step whose file operation is not pending within 3 ms is skipped (the real goroutines may "
         "batch differently), so schedules are forced approximately and the verdict rests on the trace, not on step-by-step state equality",
         "crash = MemFS crash clone with 0/50/100 % of unsynced 4 KiB blocks and directory entries kept",
@@ -751,10 +835,11 @@ TECH = "TLA+ spec + TLC exhaustive design check with seeded-bug self-tests + con
 
 def REGISTER(reg):
     reg("C21", "WAL failover replays each written batch exactly once, in order", run_c21,
-        "Failover.tla (recordQueue, asynchronous writer creation and switch with queue replay, per-segment flush/sync/failure, Close, MemFS crash, "
-        "virtualWALReader dedup) is checked exhaustively by TLC with three seeded bugs; TLC-generated schedules are forced on a real failoverWriter "
+        "Failover.tla (recordQueue as an explicit ring buffer with wrap-around and growth, asynchronous writer creation and switch with queue replay, per-segment flush/sync/failure, Close, MemFS crash, "
+        "virtualWALReader dedup) is checked exhaustively by TLC with five seeded bugs; TLC-generated schedules are forced on a real failoverWriter "
         "over two crashable MemFS directories behind a gating/failing FS; the real Scan + reader read the logical log (live or from a crash clone) and "
-        "TLC decides: exactly once, in order, nothing foreign, no holes, acknowledged-synced present, everything after a clean Close.",
+        "TLC decides: exactly once, in order, nothing foreign, no holes, acknowledged-synced present, everything after a clean Close, "
+        "no sync waiter left parked once Close returned.",
         NOTE, TECH, "DESIGN 6/C21", engine="wal")
     reg("C18", "Record log round trip and truncation", run_c18,
         "RecordLog.tla (Layout of the three wire formats, file mutilation, the Reader state machine incl. read-ahead) is checked exhaustively by "
